@@ -15,7 +15,7 @@ from ..cfg import CFG
 from ..core import AnalysisError, Repo, Report, call_name, calls_in, kwarg, norm, parents_map, walk_local
 from ..dataflow import DefUse
 from ..sites import guard_chain
-from .util import canon, cguards, cguards_any, dict_of
+from .util import canon, cguards, cguards_any, dict_of, stmt_of as stmt_of9
 
 
 def _branch(f, test_substr: str):
@@ -197,6 +197,39 @@ def run(repo: Repo, rep: Report, tier: str) -> None:
         rep.check(ok9, "C06-R9", f"SignalAnalyzer.analyze records the consumer of {s9}", "read in the consumer ladder" if ok9 else
                   f"{s9} is not recorded: `Signal c = x > 5; lamp.enable = c;` followed by a use of c in this slot removes the decider the slot reads", where9 or an9.loc())
     rep.floor("C06-R9", "reference slots of the IR schema", n9, 15)
+    # ... and "reads" means: handed to the consumer recorder, on every path of the class's branch — a call `record_consumer(<op>.<slot>...)` whose guards, beyond the
+    # class test, look at that slot only (`if op.set_condition is not None:`).  A slot recorded on one arm of an unrelated test is invisible on the other.
+    c9 = canon(an9)
+    rc_calls = calls_in(an9.node, "record_consumer")
+    rep.floor("C06-R9", "consumer-recording calls", len(rc_calls), 10)
+    OP9 = "ELEM(ir_operations)"
+    for s9 in _irs(repo):
+        want = {"": f"{OP9}.{s9.field}", "[]": f"{OP9}.{s9.field}", "[0]": f"{OP9}.{s9.field}[0]"}.get(s9.sub)
+        if want is None and s9.sub.startswith("[]."):
+            want = f"ELEM({OP9}.{s9.field}).{s9.sub[3:]}"
+        if want is None:
+            continue
+        hits = []
+        for k in rc_calls:
+            if not k.args:
+                continue
+            a0 = c9.text(k.args[0])
+            if a0 != want and a0 != f"ELEM({want})":
+                continue
+            gs = cguards(an9, stmt_of9(an9, k))
+            if not any(pol and g.startswith(f"isinstance({OP9}, ") for g, pol in gs):
+                continue
+            extra = [g for g, pol in gs if not g.startswith(f"isinstance({OP9}, ") and f"{OP9}.{s9.field}" not in g and g != OP9]
+            hits.append((k, extra))
+        if not hits:
+            # today every slot of the schema is handed to the recorder; a slot that is only *read* (say, by the export bookkeeping) has no consumer entry
+            rep.bad("C06-R9", f"SignalAnalyzer.analyze records the consumer of {s9} on every path of its branch",
+                    f"no `record_consumer({want.replace(OP9, 'op')})` under the class's branch: the producer of this slot has no recorded consumer", an9.loc())
+            continue
+        clean = [h for h in hits if not h[1]]
+        rep.check(bool(clean), "C06-R9", f"SignalAnalyzer.analyze records the consumer of {s9} on every path of its branch",
+                  "recorded unconditionally (or under a test on the slot itself)" if clean else
+                  f"recorded only under `{hits[0][1][0][:80]}`: on the other arm the producer of this slot has no recorded consumer and may be inlined away or left unplaced", an9.loc(hits[0][0]))
 
     # ---------------- R10 / R11 --------------------------------------------------------
     from .shared import borrow as _borrow6
